@@ -26,8 +26,12 @@ Modelling decisions
   the term and the parsed `older_than` are inputs.
 * Go `int` is 64-bit: `offset + limit` wraps (`wrap64`), slicing with a
   negative bound is the explicit fault `sliceBounds`.
-* `Add` is followed by the completion of the flush goroutine it may start
-  (the property excludes records submitted while a flush is pending).
+* `Add` starts its flush goroutine (`addRaw`: sets `flushPending`, one more
+  `tasks`); the goroutine is a separate step (`runTask`).  `Op.add` is Add
+  followed by the completion of the goroutines; `Op.addThen` runs a clear /
+  shutdown / restart BEFORE the goroutine gets to run (the other order).  The
+  property excludes records submitted while a flush is pending: no `Op` adds a
+  record while `tasks > 0`.
 Core Lean only.
 -/
 import AGH.Model.Bytes
@@ -80,6 +84,10 @@ structure State where
   /-- querylog.json.1, oldest first -/
   rot : List Entry
   conf : Conf
+  /-- `queryLog.flushPending` -/
+  flushPending : Bool := false
+  /-- flush goroutines started by `Add` (`go l.flushLogBuffer`) that have not run yet -/
+  tasks : Nat := 0
   deriving Repr
 
 /-- Lookup of one id in the registry. -/
@@ -430,6 +438,8 @@ structure Req where
   limitRaw : Bytes
   offsetRaw : Bytes
   searchRaw : Bytes
+  /-- `strings.ToLower(val)` of the unquoted term (Unicode lower-casing: library oracle) -/
+  loweredRaw : Bytes
   /-- `idna.ToASCII(strings.ToLower(val))`: returned string and `err != nil` -/
   asciiRet : Bytes
   asciiErr : Bool
@@ -440,7 +450,7 @@ structure Req where
 def parseTerm (r : Req) : Option Criterion :=
   if r.searchRaw = [] then none else
   let (val, strict) := unquote r.searchRaw
-  let lowered := lower val
+  let lowered := r.loweredRaw
   let ascii := if r.asciiErr then r.asciiRet else if r.asciiRet = lowered then [] else r.asciiRet
   some (.term val ascii strict)
 
@@ -532,9 +542,31 @@ def ringCap (c : Conf) : Nat := if c.memSize = 0 then 1 else c.memSize
 
 /-- `flushLogBuffer`: an empty buffer is an error and changes nothing. -/
 def flush (s : State) : State :=
-  if s.mem = [] then s else { s with mem := [], cur := s.cur ++ s.mem }
+  if s.mem = [] then s else { s with mem := [], cur := s.cur ++ s.mem, flushPending := false }
 
-/-- `Add` of an already normalised entry (and the flush it starts, run to completion). -/
+/-- `Add` up to and including the `go` statement: the flush goroutine is started,
+not run. -/
+def addRaw (s : State) (e : Entry) : State :=
+  if !s.conf.enabled then s else
+  let mem := push (ringCap s.conf) s.mem e
+  if !s.flushPending && s.conf.fileEnabled && decide (mem.length ≥ s.conf.memSize) then
+    { s with mem := mem, flushPending := true, tasks := s.tasks + 1 }
+  else { s with mem := mem }
+
+/-- One flush goroutine runs: `flushLogBuffer` (an empty buffer is an error that
+leaves `flushPending` as it is). -/
+def runTask (s : State) : State := { flush s with tasks := s.tasks - 1 }
+
+def runTasksN : Nat → State → State
+  | 0, s => s
+  | n + 1, s => runTasksN n (runTask s)
+
+/-- `synctest.Wait()`: every started flush goroutine runs to completion. -/
+def runTasks (s : State) : State := runTasksN s.tasks s
+
+/-- `Add` with nothing pending, followed by the completion of the flush it
+starts: what `runTasks (addRaw s e)` is when `flushPending = false` and
+`tasks = 0` (lemma `runTasks_addRaw`). -/
 def addEntry (s : State) (e : Entry) : State :=
   if !s.conf.enabled then s else
   let mem := push (ringCap s.conf) s.mem e
@@ -555,12 +587,14 @@ def rotCheck (s : State) (now : Int) : State :=
   | first :: _ => if first.ts + s.conf.ivl > now then s else rotate s
 
 /-- `clear`. -/
-def clear (s : State) : State := { s with mem := [], cur := [], rot := [] }
+def clear (s : State) : State := { s with mem := [], cur := [], rot := [], flushPending := false }
 
-/-- `Shutdown`, then `newQueryLog` over the same directory. -/
+/-- `Shutdown`, then `newQueryLog` over the same directory (a flush goroutine of
+the old instance finds its buffer empty and cannot touch the new one). -/
 def restart (s : State) (memSize : Nat) (fileEnabled enabled : Bool) : State :=
   let s1 := shutdown s
-  { s1 with mem := [], conf := { s1.conf with memSize := memSize, fileEnabled := fileEnabled, enabled := enabled } }
+  { s1 with mem := [], flushPending := false, tasks := 0,
+            conf := { s1.conf with memSize := memSize, fileEnabled := fileEnabled, enabled := enabled } }
 
 def msNs : Int := 1000000
 def minIvlMs : Int := 3600000
@@ -578,8 +612,16 @@ def setClients (s : State) (tbl : List (Bytes × ClientInfo)) : State :=
 
 def init (c : Conf) : State := { mem := [], cur := [], rot := [], conf := c }
 
+/-- What is done right after `Add`, before the flush goroutine it started runs. -/
+inductive Then where
+  | clear
+  | shutdown
+  | restart (memSize : Nat) (fileEnabled enabled : Bool)
+  deriving Repr
+
 inductive Op where
   | add (e : Entry)
+  | addThen (e : Entry) (t : Then)
   | shutdown
   | rotate
   | rotCheck (now : Int)
@@ -589,8 +631,14 @@ inductive Op where
   | setClients (tbl : List (Bytes × ClientInfo))
   deriving Repr
 
+def applyThen (s : State) : Then → State
+  | .clear => clear s
+  | .shutdown => shutdown s
+  | .restart m f en => restart s m f en
+
 def step (s : State) : Op → State
-  | .add e => addEntry s e
+  | .add e => runTasks (addRaw s e)
+  | .addThen e t => runTasks (applyThen (addRaw s e) t)
   | .shutdown => shutdown s
   | .rotate => rotate s
   | .rotCheck now => rotCheck s now
